@@ -2,7 +2,7 @@
 
 RUNNER_TUS = {
     'fuzz': ['fuzz_uci.cpp'],
-    'runner': ['rc_driver.cpp', 'pbt_movegen.cpp', 'pbt_position.cpp', 'pbt_moves.cpp', 'exh_tables.cpp', 'pbt_eval.cpp', 'pbt_book.cpp', 'pbt_search.cpp', 'sched_uci.cpp', 'pbt_session.cpp'],
+    'runner': ['rc_driver.cpp', 'pbt_movegen.cpp', 'pbt_position.cpp', 'pbt_moves.cpp', 'exh_tables.cpp', 'pbt_eval.cpp', 'pbt_book.cpp', 'pbt_search.cpp', 'sched_uci.cpp', 'sched_exit.cpp', 'pbt_session.cpp'],
 }
 
 ORACLE_ASSUMPTION = ('ref/refchess.h (independent mailbox rules oracle) is correct; it is validated on every run by '
@@ -293,10 +293,15 @@ PROPS['C10'] = dict(
     level_note='Uninitialised-value USE is only partially covered (UBSan invalid-value loads; no MSan-instrumented libstdc++ in this image); searches are bounded by a node-visit cap delivered from the search thread.',
     rule='evaluations = sessions executed. Non-trivial = distinct sessions that cross at least one buffer boundary (game >= 720 plies, go depth > 40, >= 128 legal moves, >= 9 pieces of a kind).',
     assumptions=['generated sessions are well-formed: legal positions and moves per the rules oracle, go only when a legal move exists, next command after bestmove'],
+    exit_rule=('exit half: evaluations = sessions ended by quit / end of input / stop+quit while the search thread is parked at a generated schedule point (thread start, Search::go entry, '
+               'after init, node visit k, iteration end, before bestmove); the harness thread does what main() does (construct Uci, loop(), destroy). Non-trivial = distinct sessions in which the search thread was '
+               'really parked inside the search when the session ended.'),
     quick=dict(cases=110, shards=16, scale=6,
+               exit=dict(cases=12, shards=16, scale=3, min_nontrivial=80, gates={'c10exit:loop_waited_for_the_search_thread': 80, 'c10exit:ending_eof': 20, 'c10exit:park_node_visit': 20}),
                fuzz_jobs=8, fuzz_runs=150,
                gates={'c10:boundary_depth_gt_40': 16, 'c10:boundary_heavy_position': 16, 'c10:go': 700, 'c10:game_ge_720_plies': 10, 'c10:depth_gt_40': 20, 'c10:ge9_of_a_kind': 10}, min_nontrivial=100),
-    thorough=dict(cases=1200, shards=16, scale=6, min_nontrivial=3000, fuzz_jobs=16, fuzz_runs=5000),
+    thorough=dict(cases=1200, shards=16, scale=6, min_nontrivial=3000, fuzz_jobs=16, fuzz_runs=5000,
+                  exit=dict(cases=150, shards=16, scale=3, min_nontrivial=1000)),
 )
 
 HOOK_COMMITS = ['2ee17ca']
